@@ -1,6 +1,13 @@
 """T1 (seq-diff) glue: builds the synctest harness against the tree under test and the
 extracted-model replay driver, runs generated / corpus histories on the REAL LockServer,
-replays the observed traces on Mseq, evaluates the trace oracle, shrinks failures."""
+replays the observed traces on Mseq, evaluates the trace oracle, shrinks failures.
+
+Two execution modes of the same symbolic histories (harness/seqdiff/exec.go):
+  direct       LockServer.Lock/TryLock/Unlock/Renew are called; the trace names the Go error VARIABLE of every failure
+  via service  the requests are *pb.LockRequest etc. handed to the real grpc.Service of net/grpc (sessions through
+               TagConn / HandleConn(ConnEnd) in both modes); the trace carries the response's error CODE name, and the
+               driver compares model and observation modulo Gen.ErrTables.srv_code (`V service`, Extract/SeqExtract.v)
+run_property splits the generated histories SVC_SHARE : 1-SVC_SHARE between the modes and runs corpus histories in both."""
 import copy
 import json
 import os
@@ -10,6 +17,9 @@ from pathlib import Path
 
 from . import vcheck
 from .vcheck import VERIF, REPO, sh, go_env, Lock
+
+SVC_SHARE = 0.30        # share of the generated histories of a run that is executed through the grpc.Service handlers
+SVC_ANOMALY_PROJS = ("all", "nolast", "C03", "C07", "C11", "C12", "C13", "C14", "C18")   # projections that read error values
 
 OVERLAYS = {
     "lock/verif_hooks.go": "lock_verif.go",
@@ -28,17 +38,20 @@ def write_overlay(ctx, extra=None):
 
 
 def build_driver(ctx):
-    """(Re)builds ocaml/seq/seqdriver when the compiled model is newer. Returns (ok, log)."""
+    """(Re)builds ocaml/seq/seqdriver when the compiled model — or the error-code table regenerated from the tree under test
+    (Gen/ErrTables.vo, read by the via-service comparison) — is newer. Returns (ok, log)."""
     d = VERIF / "ocaml" / "seq"
     drv = d / "seqdriver"
     with Lock("ocaml-seq"):
-        srcs = [VERIF / "coq" / "Model" / f for f in ("Seq.vo", "Track.vo", "Base.vo", "Err.vo")] + [d / "driver.ml", VERIF / "coq" / "Extract" / "SeqExtract.v"]
+        srcs = [VERIF / "coq" / "Model" / f for f in ("Seq.vo", "Track.vo", "Base.vo", "Err.vo")] + [VERIF / "coq" / "Gen" / "ErrTables.vo"] \
+            + [d / "driver.ml", d / "build.sh", VERIF / "coq" / "Extract" / "SeqExtract.v"]
         missing = [str(s) for s in srcs if not s.exists()]
         if missing:
             return False, "missing (Coq model not built?): " + ", ".join(missing)
         if drv.exists() and all(drv.stat().st_mtime >= s.stat().st_mtime for s in srcs):
             return True, "up to date"
-        rc, out = sh(["./build.sh"], cwd=d, timeout=600)
+        with Lock("coq"):       # build.sh compiles Extract/SeqExtract.v against the .vo files: no `make` may be rewriting them
+            rc, out = sh(["./build.sh"], cwd=d, timeout=600)
         return (rc == 0 and drv.exists()), out[-2000:]
 
 
@@ -76,35 +89,49 @@ def _progress(outdir):
     return started, done
 
 
-def run_generated(ctx, b, profile, n, seed, procs=8, timeout=240):
-    """Generates and executes n histories. Returns dict(dirs=[...], crashes=[(hid, text)], stats)."""
+_MODE_DIR = {"direct": "gen", "service": "svc"}
+
+
+def run_generated(ctx, b, profile, n, seed, procs=8, timeout=240, segments=None):
+    """Generates and executes n histories. Returns dict(dirs=[...], crashes=[(hid, text)], stats, by_mode={mode: dict(dirs, stats, n)}).
+    segments: [(mode, first index, count)] — which stream indexes run in which execution mode ("direct" | "service"); all
+    segments run at the same time, the processes shared out in proportion. Default: everything direct."""
     prof_path = ctx.work / ("profile-%s.json" % ctx.prop)
     prof_path.write_text(json.dumps(profile))
-    per = max(1, (n + procs - 1) // procs)
+    if segments is None:
+        segments = [("direct", 0, n)]
+    segments = [sg for sg in segments if sg[2] > 0]
+    total = max(1, sum(sg[2] for sg in segments))
     jobs = []
-    k = 0
-    while k < n:
-        cnt = min(per, n - k)
-        outdir = ctx.work / ("gen-%d" % k)
-        shutil.rmtree(outdir, ignore_errors=True)
-        outdir.mkdir(parents=True)
-        jobs.append([k, cnt, outdir])
-        k += cnt
+    for mode, first0, count in segments:
+        pr = max(1, int(round(procs * count / float(total))))
+        per = max(1, (count + pr - 1) // pr)
+        k = first0
+        while k < first0 + count:
+            cnt = min(per, first0 + count - k)
+            outdir = ctx.work / ("%s-%d" % (_MODE_DIR.get(mode, mode), k))
+            shutil.rmtree(outdir, ignore_errors=True)
+            outdir.mkdir(parents=True)
+            jobs.append([k, cnt, outdir, mode])
+            k += cnt
     crashes = []
     stats = {}
+    by_mode = {}
     pending = list(jobs)
     rounds = 0
     while pending and rounds < 6:
         rounds += 1
         procs_l = []
-        for first, cnt, outdir in pending:
+        for first, cnt, outdir, mode in pending:
             env = dict(os.environ)
-            env.update({"SEQ_OUT": str(outdir), "SEQ_PROFILE": str(prof_path), "SEQ_N": str(cnt), "SEQ_SEED": str(seed), "SEQ_FIRST": str(first)})
+            env.pop("SEQ_REPLAY", None)
+            env.update({"SEQ_OUT": str(outdir), "SEQ_PROFILE": str(prof_path), "SEQ_N": str(cnt), "SEQ_SEED": str(seed), "SEQ_FIRST": str(first),
+                        "SEQ_MODE": mode})
             p = subprocess.Popen([str(b["test_bin"]), "-test.run", "TestSeq", "-test.timeout", "%ds" % timeout], cwd=outdir, env=env,
                                  stdout=subprocess.PIPE, stderr=subprocess.STDOUT, text=True, errors="replace")
-            procs_l.append((p, first, cnt, outdir))
+            procs_l.append((p, first, cnt, outdir, mode))
         nxt = []
-        for p, first, cnt, outdir in procs_l:
+        for p, first, cnt, outdir, mode in procs_l:
             try:
                 out, _ = p.communicate(timeout=timeout + 30)
             except subprocess.TimeoutExpired:
@@ -122,26 +149,32 @@ def run_generated(ctx, b, profile, n, seed, procs=8, timeout=240):
                         kk = int(hid.rsplit("-", 1)[1])
                         rest = first + cnt - (kk + 1)
                         if rest > 0:
-                            nd = ctx.work / ("gen-%d" % (kk + 1))
+                            nd = ctx.work / ("%s-%d" % (_MODE_DIR.get(mode, mode), kk + 1))
                             shutil.rmtree(nd, ignore_errors=True)
                             nd.mkdir(parents=True)
-                            nxt.append([kk + 1, rest, nd])
-                            jobs.append([kk + 1, rest, nd])
+                            nxt.append([kk + 1, rest, nd, mode])
+                            jobs.append([kk + 1, rest, nd, mode])
                     except Exception:
                         pass
         pending = nxt
-    for _, _, outdir in jobs:
+    for mode, _, count in segments:
+        by_mode.setdefault(mode, dict(dirs=[], stats={}, n=0))["n"] += count
+    for _, _, outdir, mode in jobs:
+        bm = by_mode.setdefault(mode, dict(dirs=[], stats={}, n=0))
+        bm["dirs"].append(outdir)
         for sp in outdir.glob("stats-*.json"):
             try:
                 for k2, v in json.loads(sp.read_text()).items():
                     stats[k2] = stats.get(k2, 0) + v
+                    bm["stats"][k2] = bm["stats"].get(k2, 0) + v
             except Exception:
                 pass
-    return dict(dirs=[j[2] for j in jobs], crashes=crashes, stats=stats)
+    return dict(dirs=[j[2] for j in jobs], crashes=crashes, stats=stats, by_mode=by_mode)
 
 
-def run_replay(ctx, b, histories, name="replay", timeout=120):
-    """Executes symbolic histories (list of dicts). Returns dict(dirs=[dir], crashes=[...])."""
+def run_replay(ctx, b, histories, name="replay", timeout=120, mode=None):
+    """Executes symbolic histories (list of dicts). Returns dict(dirs=[dir], crashes=[...]).
+    mode None: every history in the mode its own "mode" field names (absent = direct); "direct" / "service": all of them in that mode."""
     outdir = ctx.work / name
     shutil.rmtree(outdir, ignore_errors=True)
     outdir.mkdir(parents=True)
@@ -155,7 +188,7 @@ def run_replay(ctx, b, histories, name="replay", timeout=120):
         part += 1
         f = d / "in.jsonl"
         f.write_text("\n".join(json.dumps(h) for h in todo) + "\n")
-        rc, out = _run_harness(b, d, {"SEQ_REPLAY": str(f)}, timeout)
+        rc, out = _run_harness(b, d, {"SEQ_REPLAY": str(f), "SEQ_MODE": mode or ""}, timeout)
         dirs.append(d)
         started, done = _progress(d)
         if rc == 0:
@@ -172,8 +205,9 @@ def run_replay(ctx, b, histories, name="replay", timeout=120):
 
 
 def judge(ctx, b, dirs, projections):
-    """Runs the replay driver over every trace. Returns {hid: dict(R={proj: None|idx}, T=[(idx,tag)], I=[...], B=str|None, M=[lines])}
-    plus the symbolic histories {hid: history} and concrete traces {hid: [lines]}."""
+    """Runs the replay driver over every trace. Returns {hid: dict(R={proj: None|idx}, T=[(idx,tag)], I=[...], B=str|None, M=[lines],
+    S=[(idx, what)] anomalies of responses that came through the service)} plus the symbolic histories {hid: history} and
+    concrete traces {hid: [lines]}."""
     res, hist, traces = {}, {}, {}
     for d in dirs:
         tr = d / "trace.txt"
@@ -185,19 +219,21 @@ def judge(ctx, b, dirs, projections):
             f = line.split()
             if len(f) < 3:
                 continue
-            r = res.setdefault(f[1], dict(R={}, T=[], I=[], B=None, M=[]))
+            r = res.setdefault(f[1], dict(R={}, T=[], I=[], B=None, M=[], S=[]))
             if f[0] == "R":
                 r["R"][f[2]] = None if f[3] == "ok" else int(f[4])
             elif f[0] == "T":
                 r["T"].append((int(f[2]), f[3]))
             elif f[0] == "I":
                 r["I"].append((int(f[2]), f[3]))
+            elif f[0] == "S" and len(f) >= 4:
+                r["S"].append((int(f[2]), f[3]))
             elif f[0] == "B":
                 r["B"] = " ".join(f[2:])
             elif f[0] == "M":
                 r["M"].append(line)
         if rc != 0:
-            res.setdefault("?driver", dict(R={}, T=[], I=[], B="driver failed: " + out[-500:], M=[]))
+            res.setdefault("?driver", dict(R={}, T=[], I=[], B="driver failed: " + out[-500:], M=[], S=[]))
         cur = None
         for line in tr.read_text().splitlines():
             if line.startswith("H "):
@@ -273,6 +309,9 @@ def failure_of(r, proj, tag_prefixes):
         out.append("bad-trace:" + r["B"])
     if proj and r["R"].get(proj) is not None:
         out.append("mismatch@%d" % r["R"][proj])
+    if proj in SVC_ANOMALY_PROJS:
+        # via service: the handler failed / returned no message / echoed another name — read by the properties that read error values
+        out += ["service-response:%s@%d" % (what, idx) for idx, what in r.get("S", [])]
     for idx, tag in r["T"] + r["I"]:
         if any(tag.startswith(p) for p in tag_prefixes):
             out.append("%s@%d" % (tag, idx))
@@ -297,9 +336,32 @@ def load_corpus(kind="seq"):
     return hs
 
 
-def run_property(ctx, profile, n, projection, tag_prefixes, crash_is_violation=True, corpus_filter=None, seed_offset=0):
+def code_classes(b):
+    """The classes of error values the via-service comparison cannot tell apart, as the driver built from the regenerated
+    Gen/ErrTables.v has them: -> (tables_recognised, {code name: [error value names]})."""
+    rc, out = sh([str(b["driver"]), "--code-classes"], timeout=60)
+    rec, cl = None, {}
+    for line in out.splitlines():
+        f = line.split()
+        if len(f) >= 3 and f[0] == "K!":
+            rec = f[2] == "1"
+        elif len(f) >= 2 and f[0] == "K":
+            cl[f[1]] = f[2:]
+    return rec, cl
+
+
+def _is_svc(hid, hist):
+    h = hist.get(hid)
+    if h is not None:
+        return h.get("mode") == "service"
+    return hid.endswith("@svc") or (hid[:1] == "s" and hid[1:2].isdigit())
+
+
+def run_property(ctx, profile, n, projection, tag_prefixes, crash_is_violation=True, corpus_filter=None, seed_offset=0, svc_share=None):
     """The whole T1 stage for one property. Records violations / coverage on ctx.
-    Returns dict(ok_build, mismatches, pred_failures, crashes)."""
+    Returns dict(ok_build, mismatches, pred_failures, crashes).
+    Of the n generated histories round(n * svc_share) (default SVC_SHARE) — stream indexes n_direct .. n-1 of the run's seed — are
+    executed through the grpc.Service handlers, the others directly on the LockServer; every corpus history runs in both modes."""
     b = build(ctx)
     tie = ctx.coverage["ties"].setdefault("T1-seqdiff", {})
     if not b["ok"]:
@@ -309,17 +371,27 @@ def run_property(ctx, profile, n, projection, tag_prefixes, crash_is_violation=T
                       name="build_failure.json", no_failing_input=True)
         tie["build"] = "failed: " + b["why"]
         return dict(ok_build=False)
+    share = SVC_SHARE if svc_share is None else svc_share
+    n_svc = min(n, max(0, int(round(n * share))))
+    n_dir = n - n_svc
     projs = ["all", projection] if projection != "all" else ["all"]
     corpus = [h for h in load_corpus("seq") if (corpus_filter is None or corpus_filter(h))]
     results, hist, traces, crashes = {}, {}, {}, []
-    judged_dirs = []
+    judged_dirs = []          # direct mode only: what lib/coqeval re-evaluates inside Coq (Track.v as it stands)
+    corpus_svc = []
     if corpus:
         rr = run_replay(ctx, b, corpus, name="corpus")
         r1, h1, t1 = judge(ctx, b, rr["dirs"], projs)
         results.update(r1); hist.update(h1); traces.update(t1); crashes += rr["crashes"]
         judged_dirs += list(rr["dirs"])
-    g = run_generated(ctx, b, profile, n, ctx.seed + seed_offset)
-    judged_dirs += list(g["dirs"])
+        if share > 0:
+            corpus_svc = [dict(h, id=str(h.get("id")) + "@svc", mode="service") for h in corpus if h.get("mode") != "service"]
+        if corpus_svc:
+            rr = run_replay(ctx, b, corpus_svc, name="corpus-svc", mode="service")
+            r1, h1, t1 = judge(ctx, b, rr["dirs"], projs)
+            results.update(r1); hist.update(h1); traces.update(t1); crashes += rr["crashes"]
+    g = run_generated(ctx, b, profile, n, ctx.seed + seed_offset, segments=[("direct", 0, n_dir), ("service", n_dir, n_svc)])
+    judged_dirs += list(g["by_mode"].get("direct", {}).get("dirs", []))
     r2, h2, t2 = judge(ctx, b, g["dirs"], projs)
     results.update(r2); hist.update(h2); traces.update(t2); crashes += g["crashes"]
 
@@ -331,12 +403,14 @@ def run_property(ctx, profile, n, projection, tag_prefixes, crash_is_violation=T
         return any(failure_of(v, projection, tag_prefixes) for v in r3.values())
 
     n_mis, n_pred, reported = 0, 0, 0
+    per = {False: dict(mis=0, pred=0, crashes=0), True: dict(mis=0, pred=0, crashes=0)}     # keyed by "via service"
     first_mismatch = None
     for hid, r in sorted(results.items()):
         fails = failure_of(r, projection, tag_prefixes)
         if not fails:
             continue
         preds = predicate_failures(r, tag_prefixes)
+        per[_is_svc(hid, hist)]["pred" if preds else "mis"] += 1
         if preds:
             n_pred += 1
             if reported < 3:
@@ -348,7 +422,9 @@ def run_property(ctx, profile, n, projection, tag_prefixes, crash_is_violation=T
                         shr = shrink(ctx, b, h, refail)
                     except Exception as ex:  # noqa
                         shr = None
-                ctx.violation({"kind": "failing-history", "property": ctx.prop, "failed_checks": preds, "history": h, "shrunk": shr,
+                ctx.violation({"kind": "failing-history", "property": ctx.prop, "failed_checks": preds,
+                               "executed": "through the grpc.Service handlers (error codes)" if _is_svc(hid, hist) else "directly on the LockServer",
+                               "history": h, "shrunk": shr,
                                "trace": traces.get(hid), "model_says": r["M"][:20], "seed": ctx.seed,
                                "replay_cmd": "bin/check %s --replay <this file>" % ctx.prop},
                               "real trace violates %s: %s (history %s)" % (ctx.prop, ", ".join(preds[:3]), hid),
@@ -358,6 +434,7 @@ def run_property(ctx, profile, n, projection, tag_prefixes, crash_is_violation=T
             if first_mismatch is None:
                 first_mismatch = (hid, fails, r)
     for hid, text, d in crashes:
+        per[_is_svc(hid, hist)]["crashes"] += 1
         if crash_is_violation and reported < 5:
             reported += 1
             ctx.violation({"kind": "crash", "property": ctx.prop, "history_id": hid, "history": hist.get(hid), "output": text, "dir": d},
@@ -367,8 +444,10 @@ def run_property(ctx, profile, n, projection, tag_prefixes, crash_is_violation=T
     if n_mis and not n_pred and not (crashes and crash_is_violation):
         hid, fails, r = first_mismatch if first_mismatch else ("?", ["crash"], dict(M=[]))
         ctx.violation({"broken": "correspondence T1 (projection %s)" % projection, "history_id": hid, "first_difference": fails,
+                       "executed": "through the grpc.Service handlers (error codes)" if _is_svc(hid, hist) else "directly on the LockServer",
                        "history": hist.get(hid), "trace": traces.get(hid), "model_says": r["M"][:20],
-                       "mismatching_histories": n_mis},
+                       "mismatching_histories": n_mis, "mismatching_histories_direct": per[False]["mis"],
+                       "mismatching_histories_via_service": per[True]["mis"]},
                       "model and implementation disagree on %d histories in the observations %s reads; no real trace violating the property was found"
                       % (n_mis, ctx.prop), name="correspondence_%s.json" % hid, no_failing_input=True)
     # coverage
@@ -380,11 +459,44 @@ def run_property(ctx, profile, n, projection, tag_prefixes, crash_is_violation=T
     tie.update({"histories_executed_on_real_server": len(hist), "corpus": len(corpus), "generated": n, "replayed_on_model": len(results),
                 "mismatches_in_projection": n_mis, "histories_failing_property_oracle": n_pred, "crashes": len(crashes),
                 "projection": projection, "oracle_tags": list(tag_prefixes), "generator_distribution": g["stats"]})
+    svc_h = sorted(h for h in hist if _is_svc(h, hist))
+    svc_stats = g["by_mode"].get("service", {}).get("stats", {})
+    rec, classes = code_classes(b) if svc_h else (None, {})
+    codes_seen = {}
+    for hid in svc_h:
+        for line in traces.get(hid, []):
+            f = line.split()
+            if len(f) >= 3 and f[0] == "O" and f[1] in ("r", "w") and f[-1].startswith("code:"):
+                codes_seen[f[-1][5:]] = codes_seen.get(f[-1][5:], 0) + 1
+    tie["direct"] = {"histories_executed": len(hist) - len(svc_h), "generated": n_dir, "corpus": len(corpus),
+                     "replayed_on_model": sum(1 for h in results if not _is_svc(h, hist)), "mismatches_in_projection": per[False]["mis"],
+                     "histories_failing_property_oracle": per[False]["pred"], "crashes": per[False]["crashes"],
+                     "generator_distribution": g["by_mode"].get("direct", {}).get("stats", {})}
+    tie["via_service"] = {
+        "share_of_generated": share, "generated": n_svc, "corpus": len(corpus_svc), "histories_executed_through_grpc_Service": len(svc_h),
+        "replayed_on_model": sum(1 for h in results if _is_svc(h, hist)), "mismatches_in_projection": per[True]["mis"],
+        "histories_failing_property_oracle": per[True]["pred"], "crashes": per[True]["crashes"],
+        "generator_distribution": svc_stats, "error_responses_by_code": codes_seen,
+        "requests_through_handlers": {k[3:]: v for k, v in svc_stats.items() if k in ("op:try", "op:lock", "op:unl", "op:ren")},
+        "sessions_through_TagConn_HandleConn": {k[3:]: v for k, v in svc_stats.items() if k in ("op:conn", "op:disc")},
+        "error_table_recognised": rec, "error_values_by_code": classes,
+        "not_distinguished": sorted(" = ".join(v) for v in classes.values() if len(v) > 1),
+        "rule": ("the same generator, stream indexes %d..%d of the run's seed; Lock/TryLock/Unlock/Renew are *pb requests (optional fields set exactly "
+                 "when the symbolic event has them) handed to the real grpc.Service of net/grpc, a parked Lock call runs on a context derived from its "
+                 "session's TagConn context; observed: locked/unlocked bit, key, error CODE name, echoed name (a different name, a handler error or "
+                 "a missing message is reported as service-response:*). Model and observation are compared modulo srv_code (Gen/ErrTables.v, "
+                 "regenerated from the tree under test); an oracle clause that expects a particular error value holds iff the observed code is that "
+                 "value's code. Error values with one code (not_distinguished) cannot be told apart in this mode — with the unchanged tree all values "
+                 "mapped to Unknown; the direct mode compares their identity. The in-Coq re-evaluation (lib/coqeval) samples direct-mode traces only."
+                 % (n_dir, max(n_dir, n - 1)))}
+    if svc_h:
+        tie["via_service"]["sample"] = {"history_id": svc_h[0], "trace_head": traces.get(svc_h[0], [])[:14]}
     ctx.coverage["traces_validated_against_impl"] = ctx.coverage.get("traces_validated_against_impl", 0) + len(results)
     ctx.coverage["evaluations"] = ctx.coverage.get("evaluations", 0) + len(results)
     ctx.coverage["distinct_nontrivial"] = ctx.coverage.get("distinct_nontrivial", 0) + len(nontrivial)
     ctx.coverage["rule"] = ("histories generated online from one PCG stream per (seed, index) under the property's profile; executed event by event on the real "
-                            "LockServer in a synctest bubble; non-trivial = at least 3 different event kinds; distinct = different event-kind sequences")
+                            "LockServer in a synctest bubble (%d%% of them through the gRPC Service handlers, see ties.T1-seqdiff.via_service); "
+                            "non-trivial = at least 3 different event kinds; distinct = different event-kind sequences" % int(round(100 * share)))
     if traces and len(ctx.coverage["samples"]) < 2:
         hid = sorted(traces)[0]
         ctx.coverage["samples"].append({"history_id": hid, "trace_head": traces[hid][:14]})
